@@ -124,14 +124,18 @@ def _explore_chunk(args):
             if res.world is None and res.replayer is not None and not rec["failed"] and _want_witness(e.trace):
                 from .engine import Decoder
                 try:
-                    rec["witness"] = res.replayer(Decoder(e.model))
+                    wm0 = e.real_model()
+                    if wm0 is not None:
+                        rec["witness"] = res.replayer(Decoder(wm0))
                 except Exception as ex:   # noqa
                     rec["witness_error"] = repr(ex)
             if res.world is not None and not rec["failed"] and _want_witness(e.trace):
                 from .real import concretise_script
-                wm = nicer_model(e, [], e.model)
+                wm0 = e.real_model()
                 try:
-                    rec["witness"] = concretise_script(res.world, wm)
+                    if wm0 is not None:
+                        wm = nicer_model(e, list(e.uf_axioms), wm0)
+                        rec["witness"] = concretise_script(res.world, wm)
                 except Exception as ex:   # noqa
                     rec["witness_error"] = repr(ex)
             if getattr(e, "hash_used", False):
